@@ -93,6 +93,21 @@ def history(rng, n):
     return init, offers, labels
 
 
+def equal_size_history(rng):
+    """successive roots whose files have exactly the same length (same number of keys and signers, same-width version numbers, the same OpenPGP
+    header), processed within one second and persisted between steps: what a load cache validated by size and time stamp cannot tell apart"""
+    a = [gen.key(i) for i in rng.sample(range(4), 2)]
+    b = [gen.key(i) for i in rng.sample(range(4, 8), 2)]
+    thr = rng.choice([1, 2])
+    v = rng.randint(1, 4)
+    init = gen.sign_env(gen.envelope(gen.root_md(a, thr, [gen.key(9)], 1, version=v)), a[:thr], True)
+    mk = lambda keys, ver, signers: gen.sign_env(gen.envelope(gen.root_md(keys, thr, [gen.key(9)], 1, version=ver)), signers, True)     # rng=None: the typical header
+    offers = [mk(a, v + 1, a[:thr]), mk(a, v + 2, a[:thr]), mk(b, v + 3, list({k.hex: k for k in a[:thr] + b[:thr]}.values())),
+              mk(a, v + 4, a[:thr]), mk(b, v + 4, b[:thr]), mk(b, v + 5, b[:thr])]
+    labels = ["honest", "honest", "rotate", "revoked", "honest", "honest"]
+    return init, offers, labels
+
+
 def client(impl, init, offers, persist, tmp):
     """the caller-side loop, with the real library; optionally the trusted root lives in a file between steps"""
     cur = copy.deepcopy(init)
@@ -125,10 +140,14 @@ def run(ck: Check) -> None:
         n = rng.randint(4, 12) if not ck.thorough else rng.randint(4, 60)
         init, offers, labels = history(rng, n)
         hists.append((init, offers, labels))
+    forced = set()
+    for _ in range(3 if not ck.thorough else 12):
+        forced.add(len(hists))
+        hists.append(equal_size_history(rng))
     lines = ["chain " + proto.enc(init) + " " + " ".join(proto.enc(o) for o in offers) for init, offers, _ in hists]
     model = ck.driver.run(lines, list(range(len(lines))))
     for hidx, ((init, offers, labels), line, m) in enumerate(zip(hists, lines, model)):
-        persist = hidx % 2 == 1
+        persist = hidx % 2 == 1 or hidx in forced
         verdicts, idx, cur, states = client(impl, init, offers, persist, tmp)
         ck.evaluations += len(offers)
         for lab, v in zip(labels, verdicts):
